@@ -17,7 +17,11 @@ func cmdIOTrace(args []string) {
 	g := lint.GlobalRegistry()
 	regs := []lint.Registry{g}
 	r2, _ := g.Filter(lint.FilterOptions{ExcludeSources: lint.SourceList{lint.Community}})
-	regs = append(regs, r2)
+	if r2 != nil {
+		regs = append(regs, r2)
+	} else {
+		regs = append(regs, g)
+	}
 	counts := make([]int, 4)
 	os.Stat("/verif-marker-begin")
 	var wg sync.WaitGroup
